@@ -202,4 +202,113 @@ theorem time_triple_empty (l r : TR) (hl : l.ok) (hr : r.ok) (he : secsOf l = se
   rw [sh, key]
   simp [ptSeconds, diffSeconds]
 
+/-! ### shapes needed to paste a time range onto a date -/
+
+theorem timexTime_hm (h m : Nat) (hh : h < 24) (hm : m < 60) :
+    timexTime (84 :: (pad2 h ++ [58] ++ pad2 m)) = some (formatTime h m 0) ∧ parseTime (formatTime h m 0) = some (h * 3600 + m * 60) := by
+  have e := parseTime_formatTime h m 0 hh hm (by omega)
+  refine ⟨?_, by simpa using e⟩
+  simp only [formatTime, pad2, List.cons_append, List.nil_append] at e
+  simp [timexTime, formatTime, pad2, e]
+
+/-- `build_timex` of a clock time: `T` followed by a tail without `T` and without comma that `timexTime` reads as the
+seconds since midnight -/
+theorem buildTimex_shape (t : TR) (ht : t.ok) :
+    ∃ tt f, buildTimex t = 84 :: tt ∧ timexTime (84 :: tt) = some f ∧ parseTime f = some (secsOf t) ∧ 2 ≤ tt.length ∧
+      (∀ x ∈ tt, x ≠ 44) ∧ (∀ x ∈ tt, x ≠ 84) := by
+  obtain ⟨a1, a2, a3, a4, a5, a6, a7⟩ := ht
+  obtain ⟨h, hh⟩ : ∃ h : Nat, t.hour = h := ⟨t.hour.toNat, by omega⟩
+  have hh24 : h < 24 := by omega
+  by_cases cm : t.minute = -1
+  · have cs := a7 cm
+    have e : buildTimex t = 84 :: pad2 h := by
+      unfold buildTimex
+      rw [hh, cm]
+      simp [fmt2_nat h (by omega)]
+    have v : secsOf t = h * 3600 := by
+      unfold secsOf floor0; rw [hh, cm, cs]; simp; split <;> omega
+    have k := timexTime_hour h hh24
+    refine ⟨pad2 h, _, e, k.1, by rw [v]; exact k.2, by simp [pad2], ?_, ?_⟩ <;>
+      (intro c hc; simp [pad2] at hc; omega)
+  · obtain ⟨m, hm⟩ : ∃ m : Nat, t.minute = m := ⟨t.minute.toNat, by omega⟩
+    have hm60 : m < 60 := by omega
+    by_cases cs : t.second = -1
+    · have e : buildTimex t = 84 :: (pad2 h ++ [58] ++ pad2 m) := by
+        unfold buildTimex
+        rw [hh, hm, cs]
+        simp [fmt2_nat h (by omega), fmt2_nat m (by omega)]
+      have v : secsOf t = h * 3600 + m * 60 := by
+        unfold secsOf floor0; rw [hh, hm, cs]; simp; split <;> split <;> omega
+      have k := timexTime_hm h m hh24 hm60
+      refine ⟨_, _, e, k.1, by rw [v]; exact k.2, by simp [pad2], ?_, ?_⟩ <;>
+        (intro c hc; simp [pad2] at hc; omega)
+    · obtain ⟨s, hs⟩ : ∃ s : Nat, t.second = s := ⟨t.second.toNat, by omega⟩
+      have hs60 : s < 60 := by omega
+      have e : buildTimex t = 84 :: formatTime h m s := by
+        unfold buildTimex
+        rw [hh, hm, hs]
+        simp [fmt2_nat h (by omega), fmt2_nat m (by omega), fmt2_nat s (by omega), formatTime]
+      have v : secsOf t = h * 3600 + m * 60 + s := by
+        unfold secsOf floor0; rw [hh, hm, hs]; split <;> split <;> split <;> omega
+      have k := timexTime_hms h m s hh24 hm60 hs60
+      refine ⟨_, _, e, k.1, by rw [v]; exact k.2, by simp [formatTime, pad2], ?_, ?_⟩ <;>
+        (intro c hc; simp [formatTime, pad2] at hc; omega)
+
+theorem natStr_no_T (n : Nat) : ∀ c ∈ natStr n, c ≠ 84 := by
+  intro c hc; have := natStr_digits n c hc; simp [isDigit] at this; omega
+
+/-- what `luis_time_span` writes after `PT` holds no `T` -/
+theorem luisTimeSpan_rest_no_T (n : Nat) : ∀ c ∈ (luisTimeSpan n).drop 2, c ≠ 84 := by
+  intro c hc
+  simp only [luisTimeSpan, List.append_assoc, List.cons_append, List.nil_append, List.drop_succ_cons, List.drop_zero,
+    List.mem_append] at hc
+  rcases hc with hc | hc | hc
+  · split at hc
+    · simp only [List.mem_append, List.mem_singleton] at hc; rcases hc with hc | hc
+      · exact natStr_no_T _ c hc
+      · omega
+    · simp at hc
+  · split at hc
+    · simp only [List.mem_append, List.mem_singleton] at hc; rcases hc with hc | hc
+      · exact natStr_no_T _ c hc
+      · omega
+    · simp at hc
+  · split at hc
+    · simp only [List.mem_append, List.mem_singleton] at hc; rcases hc with hc | hc
+      · exact natStr_no_T _ c hc
+      · omega
+    · simp at hc
+
+/-- `merge_date_and_time_periods` on a time-range TIMEX `(T<ta>,T<tb>,PT<rest>)` whose three tails hold no further `T`:
+the date's TIMEX is put in front of both points, the duration is copied; both ends take the date of the date value -/
+theorem mergeDTP_shape (fd pd bt et : DateTime) (dx ta tb rest : Str)
+    (ha : ∀ c ∈ ta, c ≠ 84) (hb : ∀ c ∈ tb, c ≠ 84) (hr : ∀ c ∈ rest, c ≠ 84) :
+    mergeDateAndTimePeriods fd pd dx (triple (84 :: ta) (84 :: tb) (80 :: 84 :: rest)) bt et =
+      .ok (triple (dx ++ 84 :: ta) (dx ++ 84 :: tb) (80 :: 84 :: rest))
+        (withTime fd.date (hourOf bt) (minuteOf bt) (secondOf bt)) (withTime fd.date (hourOf et) (minuteOf et) (secondOf et))
+        (withTime pd.date (hourOf bt) (minuteOf bt) (secondOf bt)) (withTime pd.date (hourOf et) (minuteOf et) (secondOf et)) := by
+  have h1 : ∀ c ∈ ([40] : Str), c ≠ 84 := by intro c hc; simp at hc; omega
+  have h2 : ∀ c ∈ ta ++ [44], c ≠ 84 := by
+    intro c hc; simp only [List.mem_append, List.mem_singleton] at hc; rcases hc with hc | hc
+    · exact ha c hc
+    · omega
+  have h3 : ∀ c ∈ tb ++ [44, 80], c ≠ 84 := by
+    intro c hc; simp only [List.mem_append, List.mem_cons, List.mem_singleton] at hc
+    rcases hc with hc | hc | hc | hc
+    · exact hb c hc
+    · omega
+    · omega
+    · simp at hc
+  have h4 : ∀ c ∈ rest ++ [41], c ≠ 84 := by
+    intro c hc; simp only [List.mem_append, List.mem_singleton] at hc; rcases hc with hc | hc
+    · exact hr c hc
+    · omega
+  have sh : triple (84 :: ta) (84 :: tb) (80 :: 84 :: rest) =
+      [40] ++ 84 :: ((ta ++ [44]) ++ 84 :: ((tb ++ [44, 80]) ++ 84 :: (rest ++ [41]))) := by simp [triple]
+  have sp : WF.splitOn 84 (triple (84 :: ta) (84 :: tb) (80 :: 84 :: rest)) = [[40], ta ++ [44], tb ++ [44, 80], rest ++ [41]] := by
+    rw [sh, splitOn_append 84 _ _ h1, splitOn_append 84 _ _ h2, splitOn_append 84 _ _ h3, splitOn_no_sep 84 _ h4]
+  unfold mergeDateAndTimePeriods
+  simp only [sp]
+  simp [triple]
+
 end RTV.ZhTP
